@@ -89,8 +89,36 @@ func (p *PB) Bool(v bool) *PB {
 	}
 	return p.Int32(0)
 }
+// PBMark: a length prefix written at Off of P's buffer.
+type PBMark struct {
+	P   *PB
+	Off int
+}
+
+// MarkTrace, when set, collects the position of every length prefix any PB writes (single driver
+// goroutine). TopLevelPrefixes picks those of the builder that produced a given body.
+var MarkTrace *[]PBMark
+
+// TopLevelPrefixes returns the offsets of the length prefixes of body's own fields (not of fields
+// nested inside a byte string) among the traced marks.
+func TopLevelPrefixes(marks []PBMark, body []byte) []int {
+	var out []int
+	if len(body) == 0 {
+		return out
+	}
+	for _, m := range marks {
+		if len(m.P.B) == len(body) && &m.P.B[0] == &body[0] && m.Off+4 <= len(body) {
+			out = append(out, m.Off)
+		}
+	}
+	return out
+}
+
 func (p *PB) Bytes(b []byte) *PB {
 	p.Marks = append(p.Marks, len(p.B))
+	if MarkTrace != nil {
+		*MarkTrace = append(*MarkTrace, PBMark{p, len(p.B)})
+	}
 	p.Int32(uint32(len(b)))
 	p.B = append(p.B, b...)
 	return p
